@@ -274,7 +274,9 @@ func (t *limbTr) binop(op token.Token, x, y *sv, pos token.Pos) *sv {
 }
 
 func (t *limbTr) low(a, k int) *sv {
-	q := t.lookupCSE(ssaOp{kind: opShr, a: a, k: k, q: -1})
+	// the quotient a >> k is emitted (or found by CSE) first so that the checker can link the two:
+	// a & (2^k-1) = a - 2^k·(a >> k)
+	q := t.emit(ssaOp{kind: opShr, a: a, k: k, q: -1})
 	return varSV(t.emit(ssaOp{kind: opLow, a: a, k: k, q: q}))
 }
 
